@@ -43,7 +43,9 @@
    recorded runs by Commandline_Trace):
      AtMostOnce     no hook body runs twice in one call (bind_parse_priority entries re-armed after a failed call excepted)
      ExplicitWins   an attribute given on the command line holds the given value when main runs, and its
-                    default is not evaluated after the command line was read
+                    default is not evaluated after the command line was read -- unless a reset hook / wipe of
+                    a parser taking part in the call removes that attribute (a subcommand's reset hook runs
+                    AFTER the root's options were stored: it discards them and the default applies again)
      PriorityOrder  top-level evaluations of the delayed pass happen in non-decreasing priority
      OnlyAfter      when a hook body runs in the delayed pass nothing of lower priority is still pending
      StageOrder     reset < pre < early (inherited < own) < parsed < delayed < finals < main
@@ -251,25 +253,31 @@ HooksOf(log) == [i \in DOMAIN log |-> log[i].h]
 NoDup(s) == \A i, j \in DOMAIN s : i # j => s[i] # s[j]
 ParsedAt(log) == IF \E i \in DOMAIN log : log[i].h = "<parsed>" THEN CHOOSE i \in DOMAIN log : log[i].h = "<parsed>" ELSE 0
 KindAt(log, i) == IF IsHook(log[i].h) THEN HK(log[i].h).k ELSE "-"
+NoHook == [id |-> "-", k |-> "-", n |-> "-", prio |-> 0, reads |-> <<>>, dels |-> <<>>, par |-> "-"]
+\* the hook record of every log entry, looked up once per judged log
+Info(log) == TLCEval([i \in DOMAIN log |-> IF IsHook(log[i].h) THEN HK(log[i].h) ELSE NoHook])
 \* (a bind_parse_priority entry deletes itself: one left pending by a failed call of a re-used Tool is collapsed
 \*  AND re-armed by the next default filling, so it is exempt here and judged through the model's log only)
-AtMostOnceLog(log) == NoDup(SelectSeq(HooksOf(log), LAMBDA h : h # "<parsed>" /\ (IsHook(h) => HK(h).k # "ordered")))
+AtMostOnceLog(log) == LET I == Info(log) IN
+                      \A i, j \in DOMAIN log : (i < j /\ log[i].h = log[j].h) => (log[i].h = "<parsed>" \/ I[i].k = "ordered")
 \* top-level evaluations after the command line was read come in priority order; finals after them; main last
 PriorityOrderLog(log) ==
-    LET p == ParsedAt(log)
-        top == {i \in DOMAIN log : i > p /\ log[i].d = 0 /\ KindAt(log, i) \in PendKinds} IN
-    p = 0 \/ \A i, j \in top : i < j => HK(log[i].h).prio <= HK(log[j].h).prio
+    LET I == Info(log)
+        p == ParsedAt(log)
+        top == {i \in DOMAIN log : i > p /\ log[i].d = 0 /\ I[i].k \in PendKinds} IN
+    p = 0 \/ \A i, j \in top : i < j => I[i].prio <= I[j].prio
 Rank(k) == CASE k = "reset" -> 1 [] k = "pre" -> 2 [] k = "early" -> 3 [] k = "final" -> 6 [] k = "main" -> 7 [] OTHER -> 0
 StageOrderLog(log) ==
-    LET p == ParsedAt(log) IN
-    /\ \A i, j \in DOMAIN log : (i < j /\ IsHook(log[i].h) /\ IsHook(log[j].h) /\ log[i].d = 0 /\ log[j].d = 0
-                                 /\ Rank(KindAt(log, i)) > 0 /\ Rank(KindAt(log, j)) > 0
-                                 /\ HK(log[i].h).par = HK(log[j].h).par)
-                                => Rank(KindAt(log, i)) <= Rank(KindAt(log, j))
-    /\ \A i \in DOMAIN log : KindAt(log, i) \in {"final", "main"} => (p > 0 /\ i > p)
-    /\ \A i \in DOMAIN log : KindAt(log, i) \in {"reset", "pre", "early"} => (p = 0 \/ i < p)
-    /\ \A i, j \in DOMAIN log : (i < j /\ KindAt(log, i) \in {"final", "main"}) => KindAt(log, j) \notin (PendKinds \ {"cfg"}) \/ log[j].d > 0
-    /\ \A i \in DOMAIN log : KindAt(log, i) = "main" => i = Len(log)
+    LET I == Info(log)
+        R == TLCEval([i \in DOMAIN log |-> IF log[i].d = 0 THEN Rank(I[i].k) ELSE 0])
+        p == ParsedAt(log)
+        ranked == {i \in DOMAIN log : R[i] > 0}
+        late == {i \in DOMAIN log : I[i].k \in {"final", "main"}} IN
+    /\ \A i, j \in ranked : (i < j /\ I[i].par = I[j].par) => R[i] <= R[j]
+    /\ \A i \in late : p > 0 /\ i > p
+    /\ \A i \in DOMAIN log : I[i].k \in {"reset", "pre", "early"} => (p = 0 \/ i < p)
+    /\ \A i \in late : \A j \in DOMAIN log : i < j => (I[j].k \notin (PendKinds \ {"cfg"}) \/ log[j].d > 0)
+    /\ \A i \in DOMAIN log : I[i].k = "main" => i = Len(log)
 \* attributes a reset hook / wipe of the parsers taking part in call c may remove
 InCall(c) == {"root"} \cup SeqSet(Par("root").inh) \cup (IF c.sub = "-" THEN {} ELSE {c.sub} \cup SeqSet(Par(c.sub).inh))
 DelsOf(c) == UNION {SeqSet(h.dels) : h \in {g \in AllHooks : g.k \in {"reset", "wipe"} /\ g.par \in InCall(c)}}
